@@ -158,15 +158,13 @@ func c07Case(c *core.Ctx) *core.Result {
 	base := make([]*scriptOutcome, nScripts)
 	for i, sp := range specs {
 		base[i] = sp.alone(c.WorkDir, fmt.Sprintf("c%d-a%d", c.Case, i))
-		again := sp.alone(c.WorkDir, fmt.Sprintf("c%d-b%d", c.Case, i))
-		if !base[i].panicked && !again.panicked {
-			if part, d := canonDiff(base[i].parts, again.parts); part != "" {
-				res.Inconcl = fmt.Sprintf("script %d is not reproducible on its own (part %s: %s)", i, part, d)
-				return res
-			}
-		}
 	}
 	note := func(i int) string { return fmt.Sprintf("script %d ops: %s", i, strings.Join(tail(base[i].ops, 20), " ")) }
+	for i, sp := range specs {
+		// the same calls once more: the result may depend on nothing but the calls (the first runs are now "other documents before")
+		again := sp.alone(c.WorkDir, fmt.Sprintf("c%d-b%d", c.Case, i))
+		c07Compare(res, base[i], again, "repeated", sp.plain, note(i))
+	}
 	mode := []string{"sequential", "interleaved", "concurrent"}[c.Case%3]
 	if c.Race {
 		mode = "concurrent"
@@ -235,7 +233,7 @@ func init() {
 	core.Register(&core.Check{
 		ID:    "C07",
 		Level: "exploration",
-		Rule: "2-6 (race binary: 2-8) deterministic API scripts on distinct documents, one third of them 'plain' (no lists/notes); each script is first run alone twice (its own result must be reproducible, else the case is inconclusive), then again (a) after the other scripts in the same process, (b) with the calls of all scripts alternating in one goroutine, (c) each script in its own goroutine released by a barrier with yields at the library's hook points. " +
+		Rule: "2-6 (race binary: 2-8) deterministic API scripts on distinct documents, one third of them 'plain' (no lists/notes); each script is first run alone, then repeated (the other scripts' first runs are then its process history), then again (a) after the other scripts in the same process, (b) with the calls of all scripts alternating in one goroutine, (c) each script in its own goroutine released by a barrier with yields at the library's hook points. " +
 			"Every part of the resulting package (canonical XML, media by content, docProps time stamps masked) and the accessor results (note counts, heading counts, paragraph/table counts, page settings) must equal the alone baseline. The same concurrent workload runs in the -race binary; every DATA RACE report whose accesses lie in the library is a finding keyed by the pair of innermost library functions. " +
 			"Non-trivial: >=2 outcomes compared; distinct = mode + the scripts' call sequences.",
 		Cases:          func(t string) int { return tierN(t, 600, 12000) },
